@@ -37,6 +37,13 @@ def o21(ctx):
 
 
 # ---------------------------------------------------------------------------------------------- lexical agreement
+def _reorders(v_):
+    """does the expression permute a sequence (sorted / reversed / argsort / step slices / indexing through a computed order)?"""
+    return any(isinstance(x, ast.Call) and isinstance(x.func, ast.Name) and x.func.id in ("sorted", "reversed") for x in ast.walk(v_)) \
+        or any(isinstance(x, ast.Call) and isinstance(x.func, ast.Attribute) and x.func.attr in ("argsort", "sort_values", "sort") for x in ast.walk(v_)) \
+        or any(isinstance(x, ast.Slice) and x.step is not None for x in ast.walk(v_))
+
+
 class CommentWeakened(Exception):
     def __init__(self, node):
         super().__init__("comment character conditionally ordinary")
@@ -168,6 +175,31 @@ def o22(ctx):
         return
     ctx.touched("starfileio.Token.tokenize", WR)
     ctx.count(1, {"tokenizer constants": c})
+    # labels are returned in the order they stand in the file (a trailing `#n` is a comment, not a position)
+    mp_, fp_ = ctx.prog.func("starfileio.Token.parse_columns")
+    ctx.touched("starfileio.Token.parse_columns")
+    ret_names = {x.id for r_ in ast.walk(fp_) if isinstance(r_, ast.Return) and r_.value is not None for x in ast.walk(r_.value) if isinstance(x, ast.Name)}
+    for st in ast.walk(fp_):
+        if isinstance(st, ast.Assign) and any(isinstance(t, ast.Name) and t.id in ret_names for t in st.targets):
+            ctx.count(1)
+            if _reorders(st.value):
+                ctx.finding("starfileio.Token.parse_columns", st, "the column labels are re-ordered after parsing: the k-th label of the header names the "
+                            "k-th entry of every data row, whatever number its trailing comment carries", st, mp_)
+    # reader and writer open the file with the same text encoding
+    mrd, frd = ctx.prog.func("starfileio.Starfile.read")
+    opens = {}
+    mwr_, fwr_ = ctx.prog.func(WR)
+    for nm_, f_ in (("read", frd), ("write", fwr_)):
+        calls_ = [n for n in ast.walk(f_) if isinstance(n, ast.Call) and isinstance(n.func, ast.Name) and n.func.id == "open"]
+        if len(calls_) != 1:
+            raise Unsupported(f"file opening in Starfile.{nm_} not recognised", f_)
+        enc = kwarg(calls_[0], "encoding")
+        opens[nm_] = (ast.unparse(enc) if enc is not None else None, calls_[0])
+    ctx.count(1, {"encodings": {k_: v_[0] for k_, v_ in opens.items()}})
+    if opens["read"][0] != opens["write"][0]:
+        ctx.finding("starfileio.Starfile.read", opens["read"][1], f"the file is read with encoding {opens['read'][0]} but written with "
+                    f"{opens['write'][0]}: text values with non-ASCII characters (paths, units) are written correctly and read back garbled",
+                    opens["read"][1], mrd)
     # a token carries the characters it was cut from: Token.__init__ stores its value argument as it is
     mi, fi = ctx.prog.func("starfileio.Token.__init__")
     ctx.touched("starfileio.Token.__init__")
